@@ -35,6 +35,9 @@ func fixedScenarios() []*Scenario {
 		{Metrics: true, Shuts: []int{bOK, bBlock}, Stops: []int{bOK}, Reqs: []Rel{{Kind: "H", J: 0}}},
 		// concurrent reloads
 		{NReload: 2, Stops: []int{bOK}, Rounds: []Round{{Trig: 0, Beh: []int{bOK, bErr}, CancelAt: -1, Pair: true}, {Trig: 0, CancelAt: -1}}},
+		// the two entry points mixed: SIGHUP during a programmatic Reload, Reload during a SIGHUP round
+		{NReload: 2, Shuts: []int{bOK}, Stops: []int{bOK}, Rounds: []Round{{Trig: 0, Beh: []int{bOK, bOK}, CancelAt: -1, Pair: true}, {Trig: 1, CancelAt: -1}, {Trig: 0, CancelAt: -1}}},
+		{NReload: 1, Stops: []int{bOK}, Rounds: []Round{{Trig: 1, CancelAt: -1, Pair: true}, {Trig: 0, Beh: []int{bErr}, CancelAt: -1}}},
 		// signal inside a programmatic reload / inside a SIGHUP reload
 		{Metrics: true, NReload: 2, Shuts: []int{bOK}, Stops: []int{bOK}, Reqs: []Rel{{Kind: "D"}}, Rounds: []Round{{Trig: 0, CancelAt: 0}}},
 		{NReload: 2, Shuts: []int{bOK}, Stops: []int{bOK}, Rounds: []Round{{Trig: 1, CancelAt: 1}}},
@@ -126,9 +129,19 @@ func genScenario(r *hx.Rand, tier string) *Scenario {
 		if sc.NReload > 0 && r.Chance(1, 5) {
 			last.CancelAt = r.Intn(sc.NReload)
 		}
+		// overlapping rounds: programmatic + programmatic, and the two entry points mixed (a SIGHUP arriving
+		// during a programmatic Reload, a Reload called while a SIGHUP round is inside its hook)
 		for i := 0; i+1 < len(sc.Rounds); i++ {
 			a, b := &sc.Rounds[i], &sc.Rounds[i+1]
-			if sc.NReload > 0 && a.Trig == 0 && b.Trig == 0 && a.CancelAt < 0 && b.CancelAt < 0 && r.Chance(1, 4) {
+			if sc.NReload > 0 && a.CancelAt < 0 && b.CancelAt < 0 && r.Chance(1, 3) {
+				switch r.Intn(3) {
+				case 0:
+					a.Trig, b.Trig = 0, 0
+				case 1:
+					a.Trig, b.Trig = 0, 1
+				default:
+					a.Trig, b.Trig = 1, 0
+				}
 				a.Pair = true
 				i++
 			}
